@@ -10,9 +10,27 @@ def _(c):
     c.reals("search_mesh_size", "mesh_size")
     c.req("dim", "dim_x >= 1")
     c.req("meshes", "search_mesh_size > 0 and mesh_size > 0")
-    c.req("scale_nonzero", "forall(dim_x, lambda j: poll_scale[j] > 0)", props=["C14"])
-    c.mod()
+    c.req("scale_nonzero", "forall(dim_x, lambda j: poll_scale[j] != 0)", props=["C14"])
+    c.prune_branches = True   # `if n_max > 0` has a dead else-branch (n_max >= 1) that would give D a different rank
+    c.mod("ghost.L", "ghost.P")
     c.result = {"arrspec": (2, ["2 * dim_x", "dim_x"], "num", False)}
+    # ---- structural obligations that connect the code to the Lean lemma (lemmas/Ltmads.lean) ---------------------------
+    c.lemma_at("n_max = np.maximum(1, np.round(search_mesh_size / mesh_size))", {
+        "n_max_integer_ge_1": "n_max >= 1 and isint(n_max)",
+        "default_mesh_ratio_gives_one": "implies(search_mesh_size <= mesh_size, n_max == 1)"}, props=["C14"])
+    c.lemma_at("D = D + np.eye(dim_x) * diag", {
+        "lower_triangular": "forall(dim_x, dim_x, lambda r, k: implies(k > r, D[r][k] == 0))",
+        "diagonal_plus_minus_n_max": "forall(dim_x, lambda r: D[r][r] == n_max or D[r][r] == -n_max)",
+        "entries_bounded": "forall(dim_x, dim_x, lambda r, k: implies(k < r, 1 - n_max <= D[r][k] and D[r][k] <= n_max - 1))"},
+        props=["C14"])
+    c.hook("D = D + np.eye(dim_x) * diag", {"ghost.L": "D"})
+    c.lemma_at("D = np.transpose(rnd.permutation(D))", {
+        "transposed_row_permutation": "forall(dim_x, dim_x, lambda i, j: 0 <= colperm(D, j) and colperm(D, j) < dim_x and D[i][j] == ghost.L[colperm(D, j)][i])"},
+        props=["C14"])
+    c.hook("D = np.transpose(rnd.permutation(D))", {"ghost.P": "D"})
+    c.ens("first_half_is_scaled_basis", "forall(dim_x, dim_x, lambda i, j: result[i][j] * poll_scale[j] == ghost.P[i][j])", top=True, props=["C14"])
+    c.ens("default_settings_signed_coordinate_directions", "implies(search_mesh_size <= mesh_size, forall(dim_x, dim_x, lambda r, k: "
+          "ghost.L[r][k] == ite(r == k, ghost.L[r][r], 0) and (ghost.L[r][r] == 1 or ghost.L[r][r] == -1)))", top=True, props=["C14"])
     c.ens("shape_2D_by_D", "rows(result) == 2 * dim_x and cols(result) == dim_x", top=True, props=["C14"])
     # {+d_1..+d_D, -d_1..-d_D}: the second half is the negated first half
     c.ens("second_half_negated", "forall(dim_x, dim_x, lambda i, j: result[dim_x + i][j] == -result[i][j])", top=True, props=["C14"])
